@@ -68,20 +68,16 @@ VARIABLES
   net,      \* inbound datagrams: Seq([id, src, lo, hi, ackP, ackS, nack])
   hdrQ,     \* headers parsed by goRead: Seq([peer, lo, hi, ackP, ackS])
   hdrPass,  \* how many of them were already passed to goWrite ('e')
-  nackIn,   \* resend requests received, not yet applied by goWrite
   \* scheduling layer
-  pend,     \* [Conns -> SUBSET Nat] chunks eligible for (re)sending now
-  rtArmed,  \* resend timer armed            (sender)
-  akArmed,  \* ack timer armed               (receiver)
-  nkArmed,  \* resend-request timer armed    (receiver)
-  forceNk,  \* next datagram is a resend request
-  wantSend, \* [Transports -> SUBSET Conns]  connectionSendQueue
+  pend,     \* [Conns -> SUBSET Nat] chunks eligible for (re)sending now (sender)
+  ak,       \* ack timer of the receiver: 0 idle, 1 armed, 2 expired (an ack is due)
+  forceNk,  \* resend-request timer expired: the next datagram is a resend request
   \* environment
   nmsg, faults
 
 dataVars  == <<queue, lay, oP, oN, oAck, iP, iN, iRcv, dlv, iTot, req, kP, kS,
-               mem, waitQ, net, hdrQ, hdrPass, nackIn>>
-schedVars == <<pend, rtArmed, akArmed, nkArmed, forceNk, wantSend>>
+               mem, waitQ, net, hdrQ, hdrPass>>
+schedVars == <<pend, ak, forceNk>>
 envVars   == <<nmsg, faults>>
 vars      == <<dataVars, schedVars, envVars>>
 
@@ -111,10 +107,9 @@ Init ==
   /\ kP = [c \in Conns |-> 0] /\ kS = [c \in Conns |-> {}]
   /\ mem = [t \in Transports |-> 0] /\ waitQ = [t \in Transports |-> <<>>]
   /\ net = [t \in Transports |-> <<>>] /\ hdrQ = [t \in Transports |-> <<>>]
-  /\ hdrPass = [t \in Transports |-> 0] /\ nackIn = [t \in Transports |-> <<>>]
-  /\ pend = [c \in Conns |-> {}] /\ rtArmed = [c \in Conns |-> FALSE]
-  /\ akArmed = [c \in Conns |-> FALSE] /\ nkArmed = [c \in Conns |-> FALSE]
-  /\ forceNk = [c \in Conns |-> FALSE] /\ wantSend = [t \in Transports |-> {}]
+  /\ hdrPass = [t \in Transports |-> 0]
+  /\ pend = [c \in Conns |-> {}] /\ ak = [c \in Conns |-> 0]
+  /\ forceNk = [c \in Conns |-> FALSE]
   /\ nmsg = 0 /\ faults = 0
 
 ---------------------------------------------------------------------------
@@ -125,9 +120,8 @@ NewMessage(c, id, size) ==
   /\ size > 0
   /\ queue' = [queue EXCEPT ![c] = Append(@, [id |-> id, size |-> size])]
   /\ nmsg' = nmsg + 1
-  /\ wantSend' = IF Sched THEN [wantSend EXCEPT ![c[1]] = @ \cup {c}] ELSE wantSend
   /\ UNCHANGED <<lay, oP, oN, oAck, iP, iN, iRcv, dlv, iTot, req, kP, kS, mem, waitQ, net,
-                 hdrQ, hdrPass, nackIn, pend, rtArmed, akArmed, nkArmed, forceNk, faults>>
+                 hdrQ, hdrPass, schedVars, faults>>
 
 ---------------------------------------------------------------------------
 (* Receiver: IncomingConnection.ReceiveDatagram / receiveMessageChunk /    *)
@@ -209,23 +203,25 @@ Read(t, i) ==
         /\ mem' = [mem EXCEPT ![t] = st.mem]
         /\ waitQ' = [waitQ EXCEPT ![t] = st.waitQ]
         /\ hdrQ' = [hdrQ EXCEPT ![t] = Append(@, h)]
-        /\ nackIn' = IF dg.nack # {} THEN [nackIn EXCEPT ![t] = Append(@, [peer |-> p, set |-> dg.nack])]
-                     ELSE nackIn
-        /\ akArmed' = IF Sched /\ p < t /\ st.any /\ c \notin wantSend[t]
-                      THEN [akArmed EXCEPT ![c] = TRUE] ELSE akArmed
-  /\ UNCHANGED <<queue, lay, oP, oN, oAck, kP, kS, hdrPass, pend, rtArmed, nkArmed, forceNk,
-                 wantSend, nmsg, faults>>
+        \* data (also duplicates) starts the ack timer
+        /\ ak' = IF Sched /\ p < t /\ st.any /\ ak[c] = 0 THEN [ak EXCEPT ![c] = 1] ELSE ak
+        \* a resend request goes straight to goWrite: the named chunks that are
+        \* still unacked become eligible
+        /\ pend' = IF Sched /\ t < p /\ dg.nack # {}
+                    THEN [pend EXCEPT ![c] = @ \cup {s \in dg.nack : s >= oP[c] /\ s < oN[c] /\ s \notin oAck[c]}]
+                    ELSE pend
+  /\ UNCHANGED <<queue, lay, oP, oN, oAck, kP, kS, hdrPass, forceNk, nmsg, faults>>
 
 (* 'e' : the simulator moves one parsed header into goWrite's input queue. *)
 EncHdr(t) ==
   /\ hdrPass[t] < Len(hdrQ[t])
   /\ hdrPass' = [hdrPass EXCEPT ![t] = @ + 1]
   /\ UNCHANGED <<queue, lay, oP, oN, oAck, iP, iN, iRcv, dlv, iTot, req, kP, kS, mem, waitQ, net,
-                 hdrQ, nackIn, schedVars, envVars>>
+                 hdrQ, schedVars, envVars>>
 
 ---------------------------------------------------------------------------
-(* goWrite.  W = [oP, oAck, kP, kS, pend, want, nk] while the passed       *)
-(* headers are consumed in order.                                          *)
+(* goWrite.  W = [oP, oAck, kP, kS, pend] while the headers passed by the  *)
+(* reader are consumed in order.                                           *)
 
 \* Transport.handleAck: OutgoingConnection.AckPrefix / AckChunk
 AckApply(W, c, P, S) ==
@@ -239,35 +235,27 @@ AckApply(W, c, P, S) ==
 DataApply(W, c, lo, hi) ==
   IF lo > hi THEN W
   ELSE LET all == W.kS[c] \cup (lo .. hi)
-           np  == FirstMissing(W.kP[c], IF all = {} THEN W.kP[c] ELSE SetMax(all) + 1, all)
-       IN [W EXCEPT !.kP[c] = IF np > W.kP[c] THEN np ELSE W.kP[c],
-                    !.kS[c] = {s \in all : s > np},
-                    !.nk[c] = @ \/ ({s \in all : s > np} # {})]
+           top == IF SetMax(all) + 1 > W.kP[c] THEN SetMax(all) + 1 ELSE W.kP[c]
+           np  == FirstMissing(W.kP[c], top, all)
+       IN [W EXCEPT !.kP[c] = np, !.kS[c] = {s \in all : s > np}]
 
 RECURSIVE ConsumeHdrs(_, _, _)
 ConsumeHdrs(W, t, j) ==
   IF j > hdrPass[t] THEN W
   ELSE LET h == hdrQ[t][j]
            c == ConnOf(t, h.peer)
-           W1 == IF t < h.peer THEN AckApply(W, c, h.ackP, h.ackS) ELSE DataApply(W, c, h.lo, h.hi)
-           W2 == IF t < h.peer /\ (W1.pend[c] # {} \/ queue[c] # <<>>)
-                 THEN [W1 EXCEPT !.want = @ \cup {c}] ELSE W1
-       IN ConsumeHdrs(W2, t, j + 1)
-
-\* resend requests: the named chunks that are still unacked become eligible
-RECURSIVE ConsumeNacks(_, _, _)
-ConsumeNacks(W, t, j) ==
-  IF j > Len(nackIn[t]) THEN W
-  ELSE LET r == nackIn[t][j]
-           c == ConnOf(t, r.peer)
-       IN ConsumeNacks(IF t < r.peer
-                       THEN [W EXCEPT !.pend[c] = @ \cup {s \in r.set : s >= W.oP[c] /\ s < oN[c] /\ s \notin W.oAck[c]},
-                                      !.want = @ \cup {c}]
-                       ELSE W, t, j + 1)
+       IN ConsumeHdrs(IF t < h.peer THEN AckApply(W, c, h.ackP, h.ackS)
+                      ELSE DataApply(W, c, h.lo, h.hi), t, j + 1)
 
 AfterEvents(t) ==
-  ConsumeNacks(ConsumeHdrs([oP |-> oP, oAck |-> oAck, kP |-> kP, kS |-> kS, pend |-> pend,
-                            want |-> wantSend[t], nk |-> nkArmed], t, 1), t, 1)
+  ConsumeHdrs([oP |-> oP, oAck |-> oAck, kP |-> kP, kS |-> kS, pend |-> pend], t, 1)
+
+\* the connection is in goWrite's send queue (haveChunksToSendNow / ack due)
+WantsSend(t, c, W) ==
+  IF t = c[1] THEN W.pend[c] # {} \/ queue[c] # <<>>
+  ELSE ak[c] = 2 \/ forceNk[c]
+ConnsOf(t) == {c \in Conns : c[1] = t \/ c[2] = t}
+OtherEnd(t, c) == IF c[1] = t THEN c[2] ELSE c[1]
 
 \* OutgoingConnection.sliceNextMessage for the first Len(ns) queued messages
 RECURSIVE SliceInto(_, _, _)
@@ -285,15 +273,14 @@ Write(t, snd) ==
   LET W == AfterEvents(t) IN
   /\ hdrQ' = [hdrQ EXCEPT ![t] = SubSeq(@, hdrPass[t] + 1, Len(@))]
   /\ hdrPass' = [hdrPass EXCEPT ![t] = 0]
-  /\ nackIn' = [nackIn EXCEPT ![t] = <<>>]
   /\ kP' = W.kP /\ kS' = W.kS
-  /\ UNCHANGED <<iP, iN, iRcv, dlv, iTot, req, mem, waitQ, akArmed, nmsg, faults>>
+  /\ oP' = W.oP /\ oAck' = W.oAck
+  /\ UNCHANGED <<iP, iN, iRcv, dlv, iTot, req, mem, waitQ, nmsg, faults>>
   /\ IF snd.peer = -1
-     THEN /\ Sched => \A c \in W.want : Len(net[IF c[1] = t THEN c[2] ELSE c[1]]) >= MaxNet
-          /\ oP' = W.oP /\ oAck' = W.oAck /\ pend' = (IF Sched THEN W.pend ELSE pend)
-          /\ nkArmed' = (IF Sched THEN W.nk ELSE nkArmed)
-          /\ wantSend' = (IF Sched THEN [wantSend EXCEPT ![t] = W.want] ELSE wantSend)
-          /\ UNCHANGED <<queue, lay, oN, net, rtArmed, forceNk>>
+     THEN \* nothing to send (or the peer's inbound network is full)
+          /\ Sched => \A c \in ConnsOf(t) : WantsSend(t, c, W) => Len(net[OtherEnd(t, c)]) >= MaxNet
+          /\ pend' = (IF Sched THEN W.pend ELSE pend)
+          /\ UNCHANGED <<queue, lay, oN, net, ak, forceNk>>
      ELSE LET p  == snd.peer
               c  == ConnOf(t, p)
               L2 == IF t < p THEN SliceInto(lay[c], queue[c], snd.ns) ELSE lay[c]
@@ -304,7 +291,6 @@ Write(t, snd) ==
                      ackP |-> IF t > p THEN W.kP[c] ELSE 0,
                      ackS |-> IF t > p THEN W.kS[c] ELSE {},
                      nack |-> IF t > p /\ snd.nk THEN Holes(W.kP[c], W.kS[c]) ELSE {}]
-              pend2 == (W.pend[c] \cup fresh) \ ch
           IN /\ p \in Peers(t)
              /\ Len(net[p]) < MaxNet
              \* ---- strict core: what a datagram may name ----
@@ -315,53 +301,40 @@ Write(t, snd) ==
                          /\ \A s \in ch : s >= W.oP[c] /\ s < n2 /\ s \notin W.oAck[c]
                          /\ \A s1, s2 \in ch : s1 < s2 => MsgIdx(L2, s1) # MsgIdx(L2, s2)
              \* ---- scheduling layer ----
-             /\ Sched => /\ c \in W.want
+             /\ Sched => /\ WantsSend(t, c, W)
                          /\ Cardinality(ch) <= MaxBurst /\ Len(snd.ns) <= MaxBurst
                          /\ t > p => snd.nk = forceNk[c]
-                         /\ t < p => /\ ch \subseteq W.pend[c] \cup fresh
+                         /\ t < p => /\ ch # {} /\ ch \subseteq W.pend[c] \cup fresh
                                      /\ (W.pend[c] # {} => snd.ns = <<>>)
-                                     /\ (W.pend[c] = {} /\ queue[c] # <<>> => snd.ns # <<>>)
-                                     /\ (W.pend[c] \cup fresh # {} => ch # {})
              /\ net' = [net EXCEPT ![p] = Append(@, dg)]
              /\ lay' = [lay EXCEPT ![c] = L2]
              /\ oN' = [oN EXCEPT ![c] = n2]
              /\ queue' = IF t < p THEN [queue EXCEPT ![c] = SubSeq(@, Len(snd.ns) + 1, Len(@))] ELSE queue
-             /\ oP' = W.oP /\ oAck' = W.oAck
              /\ IF Sched
-                THEN /\ pend' = [W.pend EXCEPT ![c] = pend2]
-                     /\ wantSend' = [wantSend EXCEPT ![t] =
-                           IF t < p /\ (pend2 # {} \/ queue'[c] # <<>>) THEN W.want \cup {c} ELSE W.want \ {c}]
-                     /\ rtArmed' = IF t < p /\ W.oP[c] < n2 THEN [rtArmed EXCEPT ![c] = TRUE] ELSE rtArmed
+                THEN /\ pend' = [W.pend EXCEPT ![c] = (@ \cup fresh) \ ch]
+                     /\ ak' = IF t > p THEN [ak EXCEPT ![c] = 0] ELSE ak
                      /\ forceNk' = IF t > p THEN [forceNk EXCEPT ![c] = FALSE] ELSE forceNk
-                     /\ nkArmed' = W.nk
-                ELSE UNCHANGED <<pend, wantSend, rtArmed, forceNk, nkArmed>>
+                ELSE UNCHANGED <<pend, ak, forceNk>>
 
 ---------------------------------------------------------------------------
-(* 't' : timers.  Only the scheduling layer is touched.                    *)
+(* 't' : timers.  Only the scheduling layer is touched.  The resend timer  *)
+(* is armed while chunks are in flight, the resend-request timer while the *)
+(* ack builder knows holes, the ack timer after data was read.             *)
 TimerResend(c) ==
-  /\ rtArmed[c]
-  /\ LET un == {s \in oP[c] .. (oN[c] - 1) : s \notin oAck[c]} IN
-     /\ pend' = [pend EXCEPT ![c] = @ \cup un]
-     /\ rtArmed' = [rtArmed EXCEPT ![c] = FALSE]
-     /\ wantSend' = IF un # {} \/ pend[c] # {} \/ queue[c] # <<>>
-                    THEN [wantSend EXCEPT ![c[1]] = @ \cup {c}] ELSE wantSend
-  /\ UNCHANGED <<dataVars, akArmed, nkArmed, forceNk, envVars>>
+  LET un == {s \in oP[c] .. (oN[c] - 1) : s \notin oAck[c]} IN
+  /\ un \ pend[c] # {}
+  /\ pend' = [pend EXCEPT ![c] = @ \cup un]
+  /\ UNCHANGED <<dataVars, ak, forceNk, envVars>>
 
 TimerAck(c) ==
-  /\ akArmed[c]
-  /\ akArmed' = [akArmed EXCEPT ![c] = FALSE]
-  /\ wantSend' = [wantSend EXCEPT ![c[2]] = @ \cup {c}]
-  /\ UNCHANGED <<dataVars, pend, rtArmed, nkArmed, forceNk, envVars>>
+  /\ ak[c] = 1
+  /\ ak' = [ak EXCEPT ![c] = 2]
+  /\ UNCHANGED <<dataVars, pend, forceNk, envVars>>
 
 TimerNack(c) ==
-  /\ nkArmed[c]
-  /\ IF kS[c] # {}
-     THEN /\ forceNk' = [forceNk EXCEPT ![c] = TRUE]
-          /\ wantSend' = [wantSend EXCEPT ![c[2]] = @ \cup {c}]
-          /\ UNCHANGED nkArmed
-     ELSE /\ nkArmed' = [nkArmed EXCEPT ![c] = FALSE]
-          /\ UNCHANGED <<forceNk, wantSend>>
-  /\ UNCHANGED <<dataVars, pend, rtArmed, akArmed, envVars>>
+  /\ kS[c] # {} /\ ~forceNk[c]
+  /\ forceNk' = [forceNk EXCEPT ![c] = TRUE]
+  /\ UNCHANGED <<dataVars, pend, ak, envVars>>
 
 Timer(kind, c) ==
   /\ Sched
@@ -377,7 +350,7 @@ Dup(t, i) ==
   /\ net' = [net EXCEPT ![t] = Append(@, @[(i % Len(@)) + 1])]
   /\ faults' = faults + 1
   /\ UNCHANGED <<queue, lay, oP, oN, oAck, iP, iN, iRcv, dlv, iTot, req, kP, kS, mem, waitQ,
-                 hdrQ, hdrPass, nackIn, schedVars, nmsg>>
+                 hdrQ, hdrPass, schedVars, nmsg>>
 
 Loss(t, i) ==
   /\ faults < MaxFaults
@@ -385,7 +358,7 @@ Loss(t, i) ==
   /\ net' = [net EXCEPT ![t] = SwapRemove(@, (i % Len(@)) + 1)]
   /\ faults' = faults + 1
   /\ UNCHANGED <<queue, lay, oP, oN, oAck, iP, iN, iRcv, dlv, iTot, req, kP, kS, mem, waitQ,
-                 hdrQ, hdrPass, nackIn, schedVars, nmsg>>
+                 hdrQ, hdrPass, schedVars, nmsg>>
 
 (* the network is repaired and nothing more is submitted *)
 Settle ==
